@@ -54,9 +54,11 @@ RULE = ("api: every sequence over {save(1), save(0), ins a, ins b, backspace, cu
 EXHAUSTIVE = True
 EXHAUSTIVE_SCOPE = {
     "quick": "api: all sequences len<=4 over 8 calls x 2 initial docs, all command sequences len<=4 over 7 commands; "
-             "keys: all sequences len<=3 over 9 emacs keys and 9 vi keys",
+             "keys: all sequences len<=3 over 9 emacs keys and 9 vi keys; fully modelled emacs keys: all sequences "
+             "len<=4 over {a, b, backspace, left, c-k, c-_, redo}",
     "thorough": "api: all sequences len<=5 over 8 calls x 2 initial docs, all command sequences len<=6 over 7 commands; "
-                "keys: all sequences len<=4 over 9 emacs keys and 9 vi keys"}
+                "keys: all sequences len<=4 over 9 emacs keys and 9 vi keys; fully modelled emacs keys: all sequences "
+                "len<=5 over {a, b, backspace, left, c-k, c-_, redo}"}
 TRUSTED = ["harness/c07.py observes every KeyProcessor._call_handler call by wrapping the bound method on the instance "
            "(the real method runs unchanged inside) and counts Buffer.undo()/redo()/save_to_undo_stack() calls the same way",
            "the save_before rule of a binding is read by calling binding.save_before on two stub events (is_repeat False/True)",
@@ -352,6 +354,7 @@ async def _session(case):
                 "U": list(buf._undo_stack), "R": list(buf._redo_stack),
                 "fed": fed["i"], "key": fed["key"], "nkeys": len(key_sequence),
                 "name": getattr(handler.handler, "__name__", "?"), "insert": insert and not sel,
+                "bkeys": [getattr(x, "value", x) for x in handler.keys],
                 "data": key_sequence[-1].data if key_sequence else "",
             })
 
@@ -571,6 +574,44 @@ def keys_oracle(case):
     return v
 
 
+# ------------------------------------------------------------------ fully modelled emacs keys
+EKEYS = ["a", "b", "c-h", "delete", "left", "right", "home", "end", "c-k", "c-_", "c-x_c-u", "f12"]
+# identity of the shipped bindings, as the Lean model numbers them (EKey.hid)
+E_HID = {("self_insert", ("<any>",)): 0, ("backward_delete_char", ("c-h",)): 1, ("delete_char", ("delete",)): 2,
+         ("backward_char", ("left",)): 3, ("forward_char", ("right",)): 4, ("beginning_of_line", ("home",)): 5,
+         ("end_of_line", ("end",)): 6, ("kill_line", ("c-k",)): 7, ("undo", ("c-_",)): 8,
+         ("undo", ("c-x", "c-u")): 9, ("_redo", ("f12",)): 10}
+
+
+def _ekeys_as_keys(case):
+    ops = []
+    for name, data in case["ops"]:
+        if name == "c-x_c-u":
+            ops += [["c-x", None], ["c-u", None]]
+        else:
+            ops.append([name, data])
+    return {"kind": "keys", "mode": "emacs", "multiline": bool(case.get("multiline")), "text": case["text"],
+            "cur": case["cur"], "history": [], "ops": ops}
+
+
+def ekeys_model(case):
+    out = [f"init {enc_str(case['text'])} {case['cur']}"]
+    for name, data in case["ops"]:
+        out.append(f"ekey char {ord(data)}" if len(name) == 1 else f"ekey {name}")
+    return out
+
+
+def ekeys_impl(case):
+    tr = trace(_ekeys_as_keys(case))
+    out = [state_line(case["text"], case["cur"], "N", [], [])]
+    for r in tr["recs"]:
+        hid = E_HID.get((r["name"], tuple(r["bkeys"])), f"?{r['name']}{r['bkeys']}")
+        if r["prev"] != r["h"]:
+            hid = f"prev-not-updated({hid})"
+        out.append(state_line(r["post"][0], r["post"][1], hid, r["U"], r["R"]))
+    return out
+
+
 # ------------------------------------------------------------------ generators
 API_ALPHA = [["save", 1], ["save", 0], ["ins", "a"], ["ins", "b"], ["delb", 1], ["cur", 0], ["undo"], ["redo"]]
 CMD_ALPHA = {
@@ -686,6 +727,13 @@ def cases(tier, rng):
             text = text.replace("\n", " ")
         cur = rng.choice([0, len(text), rng.randrange(0, len(text) + 1)])
         tl = [rng.choice(toks) for _ in range(rng.randrange(1, 26))]
+        if rng.random() < 0.6:
+            # a tail that exercises deep undo / redo: m undos, up to m redos, an edit, more undos
+            u = ["c-_"] if mode == "emacs" else ["escape", "u"]
+            m = rng.randrange(1, 5)
+            tl += [u] * m + [["f12"]] * rng.randrange(0, m + 1)
+            if rng.random() < 0.5:
+                tl += [rng.choice(toks)] + [u] * rng.randrange(0, 3) + [["f12"]] * rng.randrange(0, 2)
         r = rng.random()
         if r < 0.08:
             tl.insert(rng.randrange(len(tl) + 1), ["f10"])
@@ -696,8 +744,29 @@ def cases(tier, rng):
                        "text": text, "cur": cur,
                        "history": rng.choice([[], [], ["old one", "older\ntwo"]]),
                        "ops": _flatten(tl, rng)})
-    _warm(kcases)
+    # ---- fully modelled emacs keys: the model predicts the text too, rules and identities are static
+    ecases = []
+    small = ["a", "b", "c-h", "left", "c-k", "c-_", "f12"]
+    maxlen = 4 if quick else 5
+    for n in range(1, maxlen + 1):
+        for tup in itertools.product(small, repeat=n):
+            odd = n % 2
+            ecases.append({"kind": "ekeys", "multiline": False, "text": "xy" if odd else "", "cur": 1 if odd else 0,
+                           "ops": [[k, k if len(k) == 1 else None] for k in tup]})
+    for _ in range(400 if quick else 6000):
+        n = rng.choice([0, 1, 2, 3, 6, 12])
+        text = "".join(rng.choice(["a", "b", " ", "x", "\n", "世"]) for _ in range(n))
+        if rng.random() < 0.5:
+            text = text.replace("\n", " ")
+        cur = rng.choice([0, len(text), rng.randrange(0, len(text) + 1)])
+        ops = []
+        for _ in range(rng.randrange(1, 30)):
+            k = rng.choice(EKEYS + ["a", "b", "世", " ", "c-_", "c-_", "f12", "c-h"])
+            ops.append([k, k if len(k) == 1 else None])
+        ecases.append({"kind": "ekeys", "multiline": "\n" in text, "text": text, "cur": cur, "ops": ops})
+    _warm(kcases + [_ekeys_as_keys(c) for c in ecases])
     yield from kcases
+    yield from ecases
 
 
 def _trace_worker(chunk):
@@ -732,15 +801,18 @@ def _warm(kcases):
 
 # ------------------------------------------------------------------ plugin interface
 def model_lines(case):
-    return api_model(case) if case["kind"] == "api" else keys_model(case)
+    return {"api": api_model, "keys": keys_model, "ekeys": ekeys_model}[case["kind"]](case)
 
 
 def impl_lines(case):
-    return api_impl(case) if case["kind"] == "api" else keys_impl(case)
+    return {"api": api_impl, "keys": keys_impl, "ekeys": ekeys_impl}[case["kind"]](case)
 
 
 def oracle(case):
-    v = api_oracle(case) if case["kind"] == "api" else keys_oracle(case)
+    if case["kind"] == "api":
+        v = api_oracle(case)
+    else:
+        v = keys_oracle(_ekeys_as_keys(case) if case["kind"] == "ekeys" else case)
     seen, out = set(), []
     for x in v:
         if x["signature"] not in seen:
@@ -752,7 +824,7 @@ def oracle(case):
 def nontrivial(case):
     if case["kind"] == "api":
         return any(o[0] in ("undo", "redo") for o in case["ops"]) and any(o[0] == "save" for o in case["ops"])
-    tr = trace(case)
+    tr = trace(_ekeys_as_keys(case) if case["kind"] == "ekeys" else case)
     return any(r["atoms"] and tuple(r["pre"]) != tuple(r["post"]) for r in tr["recs"])
 
 
@@ -765,6 +837,8 @@ def distribution(cases):
          "grouped_calls(no save at boundary)": 0, "sessions_cut_short": {}}
     for c in cases:
         k = c["kind"] + ("/" + c["mode"] if c["kind"] == "keys" else "")
+        if c["kind"] == "ekeys":
+            c = _ekeys_as_keys(c)
         d["kind"][k] = d["kind"].get(k, 0) + 1
         n = len(c["ops"])
         key = str(n) if n < 8 else ("8-15" if n < 16 else "16+")
